@@ -27,6 +27,22 @@ TAG_RE = [(1, "TYPE FAIL - Expected Boolean field ok"), (2, "TYPE FAIL - Expecte
           (3, "TYPE FAIL - Expected tuple with ok and desc fields")]
 
 
+def place(rng, stmt, tag):
+    """the assert statement as it is, or inside a module body that is instantiated directly, through a function call, or from a
+    map / reduce callback (each instantiation evaluates the assertion once)"""
+    k = rng.random()
+    if k < 0.55:
+        return [stmt]
+    mod = "let am%s = module {d = 1} => {\n  let f = func(x) => x;\n  %s\n};" % (tag, stmt)
+    if k < 0.7:
+        return [mod, "let ai%s = am%s{};" % (tag, tag)]
+    if k < 0.85:
+        return [mod, "let ac%s = func (v) => am%s{d = v};" % (tag, tag), "let ai%s = ac%s(2);" % (tag, tag)]
+    if k < 0.93:
+        return [mod, "let ai%s = map(func (v) => am%s{d = v}, [3]);" % (tag, tag)]
+    return [mod, "let ai%s = reduce(func (acc, v) => am%s{d = v}, 0, [4]);" % (tag, tag)]
+
+
 def gen_file(rng, idx, nmax):
     """returns (source text, model asserts [(kind...)], build_err)"""
     n = rng.randint(0, nmax)
@@ -53,18 +69,18 @@ def gen_file(rng, idx, nmax):
         if k < 0.45:
             form = rng.random()
             if form < 0.5:
-                lines.append('assert {ok = 1 == 1, desc = %s};' % dsrc)
+                lines += place(rng, 'assert {ok = 1 == 1, desc = %s};' % dsrc, "%d_%d" % (idx, i))
             elif form < 0.8:
-                lines.append('assert {desc = %s, ok = true, extra = 1};' % dsrc)
+                lines += place(rng, 'assert {desc = %s, ok = true, extra = 1};' % dsrc, "%d_%d" % (idx, i))
             else:
-                lines.append('assert f({ok = true, desc = %s});' % dsrc)
+                lines += place(rng, 'assert f({ok = true, desc = %s});' % dsrc, "%d_%d" % (idx, i))
             asserts.append(("w", desc, True))
         elif k < 0.7:
-            lines.append('assert {ok = 1 == 2, desc = %s};' % dsrc)
+            lines += place(rng, 'assert {ok = 1 == 2, desc = %s};' % dsrc, "%d_%d" % (idx, i))
             asserts.append(("w", desc, False))
         else:
             src, kind = rng.choice(MALFORMED)
-            lines.append("assert %s;" % src.replace('"D"', dsrc))
+            lines += place(rng, "assert %s;" % src.replace('"D"', dsrc), "%d_%d" % (idx, i))
             asserts.append(kind)
     else:
         if err_at == n:
